@@ -665,7 +665,107 @@ func rawTrace(obs string) string {
 	return strings.Join(parts, ",")
 }
 
+var chunkSizes = []int64{1000, 2000, 5000, 10000}
+
+// farDistance: 10^3 .. 10^5 blocks, biased to just beyond multiples of typical query-chunk sizes
+func farDistance(r *Rng) int64 {
+	switch r.Intn(3) {
+	case 0:
+		return chunkSizes[r.Intn(len(chunkSizes))] + int64(1+r.Intn(60))
+	case 1:
+		return chunkSizes[r.Intn(len(chunkSizes))]*int64(1+r.Intn(4)) + int64(1+r.Intn(5))
+	default:
+		return 1000 + int64(r.Intn(100000))
+	}
+}
+
+// placeBeyond puts events just beyond cursor + k*chunk (and on the last confirmed block) of a wide range [cur, e]
+func placeBeyond(r *Rng, lc *loopCase, nonce *int64, cur, e int64) {
+	n := 0
+	for _, c := range chunkSizes {
+		for _, off := range []int64{1, 0, 2} {
+			b := cur + c + off
+			if b <= e && b >= 1 && n < 4 && r.Intn(3) != 0 {
+				lc.place = append(lc.place, [2]int64{*nonce, b})
+				*nonce++
+				n++
+				break
+			}
+		}
+	}
+	if r.Bool() || n == 0 {
+		lc.place = append(lc.place, [2]int64{*nonce, e})
+		*nonce++
+	}
+}
+
+// genFarLoopCase: cursor and newest confirmed block far apart — a persisted cursor after long downtime, a header
+// gap / burst of thousands of blocks, or a long run of failed log queries while headers keep arriving.
+func genFarLoopCase(r *Rng) loopCase {
+	var lc loopCase
+	nonce := int64(1)
+	d := farDistance(r)
+	var head int64
+	switch r.Intn(3) {
+	case 0: // restart after long downtime
+		lc.p0 = int64(60 + r.Intn(2000))
+		head = lc.p0 + 50 + d
+		placeBeyond(r, &lc, &nonce, lc.p0, head-50)
+		out := "d"
+		if r.Intn(4) == 0 {
+			out = []string{"c3", "c2", "c5", "f"}[r.Intn(4)]
+		}
+		lc.inputs = append(lc.inputs, loopInput{"h", head, out})
+		if out != "d" && out != "c5" {
+			head += int64(1 + r.Intn(3))
+			lc.inputs = append(lc.inputs, loopInput{"h", head, "d"})
+		}
+	case 1: // header gap / burst
+		first := int64(120 + r.Intn(40))
+		if r.Bool() {
+			lc.p0 = first - 50 - int64(r.Intn(10))
+		}
+		lc.inputs = append(lc.inputs, loopInput{"h", first, "d"})
+		cur := first - 50 + 1
+		head = first + d
+		placeBeyond(r, &lc, &nonce, cur, head-50)
+		lc.inputs = append(lc.inputs, loopInput{"h", head, "d"})
+	default: // long run of query failures while the chain advances
+		lc.p0 = int64(60 + r.Intn(100))
+		head = lc.p0 + 50 + int64(r.Intn(5))
+		lc.inputs = append(lc.inputs, loopInput{"h", head, "d"})
+		cur := head - 50 + 1
+		k := 2 + r.Intn(4)
+		for i := 0; i < k; i++ {
+			head += d/int64(k) + 1
+			lc.inputs = append(lc.inputs, loopInput{"h", head, "f"})
+			if r.Intn(4) == 0 {
+				lc.inputs = append(lc.inputs, loopInput{Kind: "x"})
+			}
+		}
+		head += int64(1 + r.Intn(3))
+		placeBeyond(r, &lc, &nonce, cur, head-50)
+		lc.inputs = append(lc.inputs, loopInput{"h", head, "d"})
+	}
+	// a few ordinary iterations afterwards (the cursor must now sit right behind the confirmed head)
+	for k := r.Intn(3); k >= 0; k-- {
+		head += int64(1 + r.Intn(4))
+		out := "d"
+		if r.Intn(6) == 0 {
+			out = "c5"
+		}
+		lc.inputs = append(lc.inputs, loopInput{"h", head, out})
+		if r.Intn(5) == 0 {
+			lc.inputs = append(lc.inputs, loopInput{Kind: "x"})
+		}
+	}
+	return lc
+}
+
 func genLoopCase(r *Rng) loopCase {
+	if r.Intn(3) == 0 {
+		return genFarLoopCase(r)
+	}
 	var lc loopCase
 	switch r.Intn(3) {
 	case 0:
@@ -788,6 +888,11 @@ func init() {
 		if n > 0 {
 			cases[0] = loopCase{p0: 0, place: [][2]int64{{1, 70}, {2, 75}, {3, 76}, {4, 90}},
 				inputs: []loopInput{{"h", 120, "d"}, {"h", 126, "c3"}, {"h", 130, "f"}, {"h", 131, "d"}, {"h", 140, "c5"}, {"h", 139, "d"}}}
+		}
+		if n > 1 {
+			// directed: persisted cursor 100, first header 12157 blocks later; events just beyond 1000, 5000, 10000 blocks
+			cases[1] = loopCase{p0: 100, place: [][2]int64{{1, 1101}, {2, 5101}, {3, 10101}, {4, 12107}},
+				inputs: []loopInput{{"h", 12157, "d"}, {"h", 12160, "d"}, {Kind: "x"}, {"h", 12161, "d"}}}
 		}
 		type res struct {
 			obs string
